@@ -170,10 +170,23 @@ func New(l Layout) (*Rig, error) {
 	if err != nil {
 		return nil, err
 	}
+	return NewWith(l, ns)
+}
+
+// NewWith builds a fresh router (fresh rule objects) from an already built and verified
+// namespace model of layout l — much cheaper than New when many pristine routers of one
+// layout are needed (history families). The model itself is shared between such rigs.
+func NewWith(l Layout, ns *models.Namespace) (*Rig, error) {
 	rt, err := router.NewRouter(ns)
 	if err != nil {
 		return nil, fmt.Errorf("NewRouter: %w", err)
 	}
+	return NewAround(l, ns, rt)
+}
+
+// NewAround wraps an existing router (for instance the one inside a server.Namespace built
+// from the same model), so that Plan / Route / Place observe exactly that router's state.
+func NewAround(l Layout, ns *models.Namespace, rt *router.Router) (*Rig, error) {
 	rule, ok := rt.GetShardRule(DB, Table)
 	if !ok {
 		return nil, fmt.Errorf("rule of %s.%s missing", DB, Table)
@@ -586,4 +599,24 @@ func (r *Rig) HasAtHome(rt *Route, i int) bool {
 		}
 	}
 	return false
+}
+
+// Signature renders the route canonically (kind, then every target in order: slice, db,
+// table index, SQL) — two plans of one statement are "identical" iff their signatures are.
+func (r *Route) Signature() string {
+	var sb strings.Builder
+	sb.WriteString(r.Kind)
+	for _, t := range r.Targets {
+		fmt.Fprintf(&sb, "\n%s|%s|%d|%s", t.Slice, t.DB, t.Table, t.SQL)
+	}
+	return sb.String()
+}
+
+// RouteSignature = Route(db, sql).Signature(); a rejected statement gives "ERR: <error>".
+func (r *Rig) RouteSignature(db, sql string) string {
+	rt, err := r.Route(db, sql)
+	if err != nil {
+		return "ERR: " + err.Error()
+	}
+	return rt.Signature()
 }
